@@ -21,6 +21,16 @@ THEOREMS = [
     'AbacusVerif.Blsc.compress_decompress_id',
     'AbacusVerif.Blsc.compress_zero_step',
     'AbacusVerif.Blsc.truncated_stream_detected',
+    'AbacusVerif.Blsc.pos_dead',
+    'AbacusVerif.Blsc.pos_dead_no_buffer',
+    'AbacusVerif.Blsc.decompress_frames_any',
+    'AbacusVerif.Blsc.decompressF_eq',
+    'AbacusVerif.Blsc.zero_payload_handed_over',
+    'AbacusVerif.Blsc.zero_payload_skipped',
+    'AbacusVerif.Blsc.truncated_inside_frame',
+    'AbacusVerif.Blsc.trailing_garbage_ignored',
+    'AbacusVerif.Blsc.compressK_shuffle_error',
+    'AbacusVerif.Blsc.compressK_spec',
 ]
 DRIVER = 'drv_c14'
 RULE = ('a case is one (stream, chunking) pair run through the real BloscCompressor.decompress and the model '
@@ -74,6 +84,7 @@ class Recorder:
         self.frames = []
         self.addrs = []
         self.typesizes = []
+        self.trace = []      # ('nthreads', n) / ('blocksize', n) / ('compress', raw, kwargs)
         self.base = None
         self.cap = 0
         self.overflow = False
@@ -89,12 +100,19 @@ class ToyCodec:
         import blosc
         import ctypes
         self.blosc = blosc
-        self.saved = (blosc.compress, blosc.decompress_ptr)
+        self.saved = (blosc.compress, blosc.decompress_ptr, blosc.set_nthreads, blosc.set_blocksize)
 
-        def compress(data, typesize=8, clevel=1, shuffle=1, cname='zstd', **kw):
-            REC.typesizes.append(int(typesize))
+        def compress(data, **kw):
             raw = data.tobytes() if hasattr(data, 'tobytes') else bytes(data)
+            REC.typesizes.append(kw.get('typesize'))
+            REC.trace.append(('compress', raw, dict(kw)))
             return toy_enc(raw)
+
+        def set_nthreads(n):
+            REC.trace.append(('nthreads', n))
+
+        def set_blocksize(n):
+            REC.trace.append(('blocksize', n))
 
         def decompress_ptr(frame, address, **kw):
             fb = bytes(frame)
@@ -109,10 +127,13 @@ class ToyCodec:
 
         blosc.compress = compress
         blosc.decompress_ptr = decompress_ptr
+        blosc.set_nthreads = set_nthreads
+        blosc.set_blocksize = set_blocksize
         return self
 
     def __exit__(self, *a):
-        self.blosc.compress, self.blosc.decompress_ptr = self.saved
+        (self.blosc.compress, self.blosc.decompress_ptr, self.blosc.set_nthreads,
+         self.blosc.set_blocksize) = self.saved
 
 
 # ----------------------------------------------------------------------------- helpers
@@ -228,12 +249,13 @@ def parse_model(s):
 class Batch:
     """collect (stream, sizes) cases, query the model in one go, then run the real code on each"""
 
-    def __init__(self, ctx, label, wellformed=True, model=True):
+    def __init__(self, ctx, label, wellformed=True, model=True, cross=False):
         self.ctx = ctx
         self.label = label
         self.cases = []
         self.wellformed = wellformed
         self.model = model
+        self.cross = cross     # also run the simple (quadratic) machine `decs` and compare with `dec`
 
     def add(self, stream, sizes, tag=''):
         self.cases.append((stream, list(sizes), tag))
@@ -250,6 +272,17 @@ class Batch:
                 h = hexcache[id(stream)] = hexs(stream)
             lines.append('dec %s %s' % (h, rle(sizes)))
         outs = ctx.driver.query(lines) if self.model else [None] * len(lines)
+        if self.model and self.cross:
+            for line, fast, simple in zip(lines, outs, ctx.driver.query(['decs' + l[3:] for l in lines])):
+                ctx.count('fast-vs-simple-machine')
+                fa = fast.split(' ')
+                if (fast.startswith('err') or simple.startswith('err')):
+                    same = fast == simple
+                else:
+                    same = [t for t in fa if t.split('=')[0] in ('ok', 'n', 'frames', 'st')] == simple.split(' ')
+                if not same:
+                    ctx.disagree('linear-time machine vs simple machine (decompressF_eq)', {'request': line[:300]},
+                                 fast[:300], simple[:300])
         speccache = {}
         for k, ((stream, sizes, tag), mres) in enumerate(zip(self.cases, outs)):
             sp = speccache.get(id(stream))
@@ -400,12 +433,12 @@ def run_boundary(ctx):
     """empty input, only-empty chunks, truncations (every proper prefix of two short streams under all
     chunkings), zero-length payloads (outside the format: model vs real code only)"""
     rng = ctx.rng
-    b = Batch(ctx, 'degenerate')
+    b = Batch(ctx, 'degenerate', cross=True)
     b.add(b'', [], 'no-chunks')
     b.add(b'', [0], 'one-empty-chunk')
     b.add(b'', [0, 0, 0], 'empty-chunks')
     b.flush()
-    bt = Batch(ctx, 'truncated')
+    bt = Batch(ctx, 'truncated', cross=True)
     for prof in ([2], [1, 2], [3, 1]):
         stream = mkstream([bytes(rng.integers(0, 256, n, dtype=np.uint8)) for n in prof])
         for k in range(0, len(stream)):
@@ -413,7 +446,18 @@ def run_boundary(ctx):
             for sizes in compositions(k):
                 bt.add(pre, sizes, 'prefix%d' % k)
     bt.flush()
-    bz = Batch(ctx, 'zero-payload', wellformed=False)
+    # 1-3 stray bytes after the last frame (trailing_garbage_ignored): the complete frames are handed over,
+    # the garbage stays in _partial_len; all chunkings
+    bg = Batch(ctx, 'trailing-garbage', cross=True)
+    for prof in ([], [2], [1, 2]):
+        base = mkstream([bytes(rng.integers(0, 256, n, dtype=np.uint8)) for n in prof])
+        for glen in (1, 2, 3):
+            g = bytes(rng.integers(0, 256, glen, dtype=np.uint8))
+            for stream in (base + g, base + b'\x00' * glen, base + b'\xff' * glen):
+                for sizes in compositions(len(stream)):
+                    bg.add(stream, sizes, 'garbage%d' % glen)
+    bg.flush()
+    bz = Batch(ctx, 'zero-payload', wellformed=False, cross=True)
     for payloads in ([b''], [b'', b'ab'], [b'a', b'', b'b'], [b'ab', b'']):
         stream = mkstream(payloads)
         for sizes in compositions(len(stream)):
@@ -427,8 +471,8 @@ def run_random(ctx):
     fams = ['1', '2', '3', '4', '5', 'prime', '4096', 'whole', 'mixed']
     b = Batch(ctx, 'random')
     for si in range(nstreams):
-        # size profile: mostly moderate, some large (the model's byte lists make 1-byte chunking of
-        # long payloads quadratic, so the largest streams skip the smallest chunk sizes)
+        # size profile: mostly moderate, some large (the driver runs the linear-time machine, proved equal to
+        # the simple one, so the longest streams are compared at chunk sizes 1-3 as well)
         kind = si % 4
         if kind == 0:
             nf, hi = int(rng.integers(1, 41)), 60
@@ -446,8 +490,6 @@ def run_random(ctx):
         total = len(stream)
         ctx.count('stream-bytes:' + ('<1k' if total < 1000 else '<20k' if total < 20000 else '>=20k'))
         for fam in fams:
-            if total > 40000 and fam in ('1', '2', '3'):
-                continue
             b.add(stream, chunk_family(rng, total, fam), 'fam=' + fam)
         # cuts forced inside every length prefix
         starts = list(itertools.accumulate([0] + [4 + n for n in lens]))[:-1]
@@ -540,6 +582,109 @@ def run_compress(ctx):
         frames, complete = spec_frames(stream)
         assert complete and b''.join(toy_dec(f) for f in frames) == expect[id(stream)]
     dec_batch.flush()
+
+
+def run_compress_kwargs(ctx):
+    """compress(**kwargs): which keywords are popped, typesize 'auto' vs explicit, the shuffle table and its
+    ValueError branch, what reaches blosc.set_nthreads / set_blocksize / compress — against compressK"""
+    from abacusnbody.data.asdf import BloscCompressor
+    rng = ctx.rng
+    ABSENT = object()
+
+    def pick(opts):
+        return opts[int(rng.integers(0, len(opts)))]
+
+    cases, lines = [], []
+    for k in range(ctx.pick(150, 900)):
+        isz = pick([1, 2, 4, 8, 12])
+        nitems = int(rng.integers(0, 30))
+        raw = bytes(rng.integers(0, 256, nitems * isz, dtype=np.uint8))
+        kw = {
+            'typesize': pick([ABSENT, ABSENT, 'auto', 1, 3, 8, isz]),
+            'clevel': pick([ABSENT, ABSENT, 0, 5, 9]),
+            'cname': pick([ABSENT, ABSENT, 'lz4', 'zlib', 'zstd']),
+            'shuffle': pick([ABSENT, ABSENT, 'shuffle', 'bitshuffle', None, None, 'x', 'noshuffle', 'SHUFFLE']),
+            'nthreads': pick([ABSENT, ABSENT, 1, 4]),
+            'blosc_block_size': pick([ABSENT, ABSENT, 1000, 0]),
+            'compression_block_size': pick([ABSENT, isz, 2 * isz + 1, 5 * isz, max(0, isz - 1)]),
+        }
+        kw = {a: b for a, b in kw.items() if b is not ABSENT}
+        if rng.random() < 0.2:
+            kw['foo'] = 1
+        if rng.random() < 0.1:
+            kw['bar'] = 'q'
+        toks = []
+        names = {'typesize': 'typesize', 'clevel': 'clevel', 'cname': 'cname', 'shuffle': 'shuffle',
+                 'nthreads': 'nthreads', 'blosc_block_size': 'bbs', 'compression_block_size': 'cbs'}
+        for a, b in kw.items():
+            if a in names:
+                toks.append('%s=%s' % (names[a], 'none' if b is None else b))
+            else:
+                toks.append('x:%s=%s' % (a, b))
+        cases.append((isz, nitems, raw, kw))
+        lines.append('enck %d %s %s' % (isz, hexs(raw), ' '.join(toks)))
+    outs = ctx.driver.query(lines)
+    for (isz, nitems, raw, kw), mres in zip(cases, outs):
+        case = {'label': 'compress-kwargs', 'itemsize': isz, 'nitems': nitems, 'kwargs': {a: repr(b) for a, b in kw.items()},
+                'data': raw.hex() if len(raw) <= 100 else None}
+        ctx.case(case, nontrivial=True, key=(isz, raw.hex(), sorted((a, repr(b)) for a, b in kw.items())))
+        ctx.count('family:compress-kwargs')
+        ctx.count('kw-shuffle:%r' % (kw.get('shuffle', 'absent'),))
+        ctx.count('kw-typesize:%s' % ('absent' if 'typesize' not in kw else 'auto' if kw['typesize'] == 'auto' else 'explicit'))
+        enough(ctx)
+        arr = np.frombuffer(raw, dtype=np.dtype('V%d' % isz) if isz == 12 else np.dtype('u%d' % isz))
+        REC.trace = []
+        try:
+            pieces = [bytes(p) for p in BloscCompressor().compress(memoryview(arr), **dict(kw))]
+            calls = [t for t in REC.trace if t[0] == 'compress']
+            argsets = {json.dumps({a: (b if isinstance(b, (int, str)) else repr(b)) for a, b in c[2].items()}, sort_keys=True)
+                       for c in calls}
+            impl = {'order': [t[0] for t in REC.trace][:2], 'nthreads': [t[1] for t in REC.trace if t[0] == 'nthreads'],
+                    'bbs': [t[1] for t in REC.trace if t[0] == 'blocksize'], 'args': sorted(argsets),
+                    'blocks': [c[1].hex() for c in calls], 'pieces': [p.hex() for p in pieces]}
+        except ValueError as e:
+            impl = {'err': 'zero-step' if 'must not be zero' in str(e) else 'value-error', 'codec_touched': bool(REC.trace),
+                    'arg': e.args[0] if e.args else None}
+        except Exception as e:   # noqa: BLE001
+            impl = {'err': type(e).__name__ + ': ' + str(e)[:60]}
+        if mres.startswith('ok '):
+            parts = dict(t.split('=', 1) for t in mres.split(' ')[1:])
+            ts, cl, sh, cn, ex = parts['args'].split(':')
+            margs = {'typesize': int(ts), 'clevel': int(cl), 'shuffle': int(sh), 'cname': cn}
+            if ex != '.':
+                for kv in ex.split(';'):
+                    a, b = kv.split('~')
+                    margs[a] = int(b) if b.isdigit() else b
+            blocks = [] if parts['blocks'] == '.' else ['' if f == '-' else f for f in parts['blocks'].split(',')]
+            model = {'order': ['nthreads', 'blocksize'], 'nthreads': [int(parts['nthreads'])], 'bbs': [int(parts['bbs'])],
+                     'args': [json.dumps(margs, sort_keys=True)] if blocks else [],
+                     'blocks': blocks,
+                     'pieces': [] if parts['pieces'] == '.' else parts['pieces'].split(',')}
+        else:
+            model = {'err': mres[4:]}
+            if model['err'] == 'value-error':
+                model.update(codec_touched=False, arg=kw.get('shuffle'))
+            elif model['err'] == 'zero-step':
+                model.update(codec_touched=True, arg=impl.get('arg'))
+        if model != impl:
+            ctx.disagree('compress keyword handling', case, small(model), small(impl))
+        # oracle: the documented meaning of the keywords, restated
+        sh = kw.get('shuffle', 'shuffle')
+        if sh not in ('shuffle', 'bitshuffle', None):
+            if impl.get('err') != 'value-error' or impl.get('codec_touched'):
+                ctx.fail('unknown shuffle keyword not rejected before the codec is used', case, small(impl),
+                         {'err': 'value-error', 'codec_touched': False}, key='compress:shuffle-error')
+        elif impl.get('err') not in (None, 'zero-step'):
+            ctx.fail('compress with valid keywords raises', case, small(impl), {'err': None}, key='compress:kwargs-raise')
+        elif 'err' not in impl:
+            exp_ts = isz if kw.get('typesize', 'auto') == 'auto' else kw['typesize']
+            exp_sh = {'shuffle': 1, 'bitshuffle': 2, None: 0}[sh]
+            bad = [a for a in impl['args'] if json.loads(a).get('typesize') != exp_ts or json.loads(a).get('shuffle') != exp_sh
+                   or json.loads(a).get('clevel') != kw.get('clevel', 1) or json.loads(a).get('cname') != kw.get('cname', 'zstd')]
+            if bad or ''.join(impl['blocks']) != raw.hex() or impl['nthreads'] != [kw.get('nthreads', 1)] \
+                    or impl['bbs'] != [kw.get('blosc_block_size', 512 * 1024)]:
+                ctx.fail('compress keywords do not reach the codec as documented', case, small(impl),
+                         {'typesize': exp_ts, 'shuffle': exp_sh}, key='compress:kwargs')
 
 
 def write_blsc(fn, tree, block_size):
@@ -661,6 +806,7 @@ def run(ctx):
             run_exhaustive(ctx)
             run_random(ctx)
             run_compress(ctx)
+            run_compress_kwargs(ctx)
             run_end_to_end(ctx, 'toy')
         run_end_to_end(ctx, 'standin')
     except Enough:
